@@ -1,5 +1,6 @@
 import Drx.Dir
 import Drx.Idx
+import Drx.DirReal
 import Drx.Drv.Util
 namespace Drx.Drv.Dir
 open Drx Drx.Drv Drx.Dir
@@ -42,11 +43,71 @@ def stubs : Decoders where
   clut := fun d => .ok (tokS "clut" d)
   bitd := fun cd clut d => .ok (.obj [("bmp", J.hex d), ("clut", match clut with | some v => v.toJ | none => J.s ""), ("cast", castJ cd)])
 
+/-- "default" = DRX_ENCODING unset = util.get_encoding()'s default 'mac_roman' -/
+def codecOf (name : String) : Option Codec := if name = "default" then some Codec.macRoman else Codec.ofName name
+
+/-- the resource table `parseDir` hands to `assemble` (same steps) -/
+def resources (o : Order) (P : Nat) (d : Bytes) : R (List Res) := do
+  let chunks ← Riff.parseRiff d P o
+  let c0 ← match chunks with | c :: _ => pure c | [] => throw Err.index
+  if c0.id ≠ "imap".toList then .error .value else
+  let im ← Riff.parseImap c0.data o
+  let mc ← Riff.getByOffset chunks (im.offset - (P : Int))
+  if mc.id ≠ "mmap".toList then .error .value else
+  let mm ← Riff.parseMmap mc.data o
+  .ok (resOfFile chunks P mm.resources)
+
+def chunkOf (rs : List Res) (id : String) : R Bytes := do
+  let r ← locateChunk rs id
+  let c ← r.chunk
+  .ok c.data
+
+/-- the cast loop that does not stop at the first failing member (diagnosis only): a failing member is reported as "error"
+    and stands as `{}` in the list later members see -/
+def castLoopDiag (D : Decoders) (rs : List Res) (key : KeyData) (fm : J) : List Int → List CastData → List J → List J
+  | [], _, acc => acc.reverse
+  | ci :: rest, cast, acc =>
+    if ci = 0 then castLoopDiag D rs key fm rest (cast ++ [[]]) (J.obj [] :: acc) else
+    match memberEntry D rs key fm cast ci with
+    | .error _ => castLoopDiag D rs key fm rest (cast ++ [[]]) (J.s "error" :: acc)
+    | .ok cd => castLoopDiag D rs key fm rest (cast ++ [cd]) (castJ cd :: acc)
+
+/-- every part of the assembly on its own ("error" where that part fails): localises a disagreement to a sub-model -/
+def realParts (c : Codec) (o : Order) (P : Nat) (d : Bytes) : J :=
+  let D := DirReal.realDecoders c
+  match resources o P d with
+  | .error _ => J.s "error"
+  | .ok rs =>
+    let key := (chunkOf rs "KEY*").bind (D.key o)
+    let cas := (chunkOf rs "CAS*").bind D.cas
+    let fm := optionalChunk rs "Fmap" (.arr []) D.fmap
+    let scripts := scriptsPart D rs
+    J.obj [("info", J.ofR id ((chunkOf rs "VWCF").bind D.vwcf)),
+           ("lingoScr", J.ofR (fun p => scrJ p.1) scripts), ("jsScr", J.ofR (fun p => scrJ p.2) scripts),
+           ("markers", J.ofR id (optionalChunk rs "VWLB" (.arr []) D.vwlb)),
+           ("score", J.ofR id (optionalChunk rs "VWSC" (.obj []) D.score)),
+           ("fontmap", J.ofR id fm),
+           ("cast", match key, cas, fm with
+              | .ok k, .ok cs, .ok f => J.arr (castLoopDiag D rs k f cs [] [])
+              | _, _, _ => J.s "error")]
+
 /-- commands of the `dir` family (see harness/c05.py) -/
 def run : List String → Option String
   | ["stub", o, off, h] => do
     let o ← parseOrder o; let off ← parseNat off; let b ← bytesOfHex h
     some (rJ DirectorFile.toJ (parseDir stubs o off b))
+  | ["real", c, o, off, h] => do
+    -- the whole pipeline of the repository: the assembly model over the real decoder models (Drx/DirReal.lean)
+    let c ← codecOf c; let o ← parseOrder o; let off ← parseNat off; let b ← bytesOfHex h
+    some (rJ DirectorFile.toJ (DirReal.parseDirReal c o off b))
+  | ["realparts", c, o, off, h] => do
+    let c ← codecOf c; let o ← parseOrder o; let off ← parseNat off; let b ← bytesOfHex h
+    some (realParts c o off b).render
+  | ["realkey", c, o, h] => do
+    -- the key decoder of `realDecoders` alone (ties DrxProps/C05.lean `real_key_mac_pc` to the driver)
+    let c ← codecOf c; let o ← parseOrder o; let b ← bytesOfHex h
+    some (rJ (fun kd => J.arr (kd.map fun (k, l) => J.arr [J.int k, J.arr (l.map fun r => J.obj [("chunkID", J.str r.chunkID), ("index", J.int r.index)])]))
+      ((DirReal.realDecoders c).key o b))
   | _ => none
 
 end Drx.Drv.Dir
